@@ -121,3 +121,7 @@ def harvest_literals(files):
             if v < (1 << 33):
                 vals.add(v)
     return sorted(vals)
+
+
+def bump(stats, key, n=1):
+    stats[key] = stats.get(key, 0) + n
